@@ -194,7 +194,10 @@ func project(s *state.StateDB, r *resolver, sl *sideLists) (p *Proj) {
 		p.Acct = append(p.Acct, ap)
 	}
 	p.Refund = s.GetRefund()
-	for _, l := range s.Logs() {
+	// StateDB.Logs() walks a map keyed by transaction hash: order by the block-wide log index
+	logs := s.Logs()
+	sort.SliceStable(logs, func(i, j int) bool { return logs[i].Index < logs[j].Index })
+	for _, l := range logs {
 		lp := LogP{Addr: r.abs(l.Address), Data: hex.EncodeToString(l.Data), Index: l.Index, TxHash: l.TxHash.Hex(), TxIndex: l.TxIndex}
 		for _, t := range l.Topics {
 			lp.Topics = append(lp.Topics, t.Hex())
